@@ -3121,9 +3121,14 @@ void sm9_z256_modn_from_hash(sm9_z256_t h, const uint8_t Ha[40])
 
 	// (r // 2^320) = (r[5], r[6])
 	sm9_z256_mul(r, r + 5, SM9_Z256_N_MINUS_ONE);
-	sm9_z256_sub(h, z, r);
+	c = sm9_z256_sub(h, z, r);
+	t = z[4] - r[4] - c;
 
-	sm9_z256_modn_add(h, h, SM9_Z256_ONE);
+	// the quotient estimate may be short: reduce to [0, N-2] before adding one
+	while (t || sm9_z256_cmp(h, SM9_Z256_N_MINUS_ONE) >= 0) {
+		t -= sm9_z256_sub(h, h, SM9_Z256_N_MINUS_ONE);
+	}
+	(void)sm9_z256_add(h, h, SM9_Z256_ONE);
 }
 
 int sm9_z256_point_to_uncompressed_octets(const SM9_Z256_POINT *P, uint8_t octets[65])
